@@ -1,6 +1,9 @@
 package main
 
-import "fmt"
+import (
+	"fmt"
+	"strings"
+)
 
 func init() {
 	registerCheck(&CheckDef{
@@ -48,6 +51,16 @@ func init() {
 					nr = 30
 				}
 				rs = thin(rs, nr)
+				// bounds that may contain upper-case letters (qualifiers, identifiers): String() must
+				// return them as given
+				if ub := thin(rangeSafe(eco, upperCapable(append(append([]string{}, all...), versionTemplates(eco, "l")...))), 2); len(ub) > 0 {
+					ops := opsTable[eco].ops
+					for i, b := range ub {
+						for k := 0; k < 2 && k < len(ops); k++ {
+							rs = append(rs, ops[(i+k)%len(ops)]+b)
+						}
+					}
+				}
 				for _, r := range rs {
 					for _, pd := range pads[:2] {
 						out = append(out, &Config{ID: fmt.Sprintf("C18/R/%s/%s/%q|%q", eco, r, pd[0], pd[1]), Pkg: zzhPkg, Func: "C18R", Args: []ArgSpec{ArgStr(eco), ArgTmpl(r), ArgTmpl(pd[0]), ArgTmpl(pd[1]), ArgTmpl(third[0])}})
@@ -57,7 +70,23 @@ func init() {
 			return out
 		},
 		Bounds: func(tier string) string {
-			return "versions: 8 (quick) / 20 (thorough) grammar templates per ecosystem plus all ASCII strings of length <= 3 / 4; ranges: 10 / 30 templates (comparator and shorthand forms); paddings of 0-2 bytes per side drawn from space, tab, CR, LF; comparison against 2 further version templates"
+			return "versions: 8 (quick) / 20 (thorough) grammar templates per ecosystem plus all ASCII strings of length <= 3 / 4; ranges: 10 / 30 templates (comparator and shorthand forms) plus up to 4 comparator ranges whose bound admits upper-case letters; paddings of 0-2 bytes per side drawn from space, tab, CR, LF; comparison against 2 further version templates"
 		},
 	})
+}
+
+// upperCapable keeps the templates with a class that admits upper-case letters.
+func upperCapable(ts []string) []string {
+	var out []string
+	seen := map[string]bool{}
+	for _, t := range ts {
+		if seen[t] {
+			continue
+		}
+		seen[t] = true
+		if strings.Contains(t, "{a}") || strings.Contains(t, "{n}") || strings.Contains(t, "{i}") || strings.Contains(t, "{u}") || strings.Contains(t, "A-Z") {
+			out = append(out, t)
+		}
+	}
+	return out
 }
